@@ -47,13 +47,17 @@ claim("C01", "model_checking", DT + "Failures are excused only when a listed kno
       "(cross-checked against git on every CLI case), tree-sitter-javascript comment recognition. Gray: ops touching or "
       "adjoining tag lines, tag-line rewrites inside larger change groups.",
       "TLA+ spec DiffTouch.tla (DiffWalk actions + Touch operators vs edit-script contract) model-checked with TLC; "
-      "spec->impl replay of every behaviour (bwexec, real git + CLI); deviation switches attribute known findings",
+      "Affects.tla (two-pass validator vs per-reference contract) and DiffText.tla (unidiff outer loop) likewise; "
+      "spec->impl replay of every behaviour (bwexec, real git + CLI); impl->spec trace validation of recorded diff "
+      "walks and touch flags (TraceDiff.tla) incl. large random edits; deviation switches attribute known findings",
       "DESIGN.md §6 C01")
 claim("C02", "model_checking", DT + "Every block carries an always-violated rule, so selection is visible in the report; "
       "with a path argument every block of the file must be reported.",
       "Trusted: as C01. Gray: edits on region edges (first/last character of the tag, comment delimiters).",
       "TLA+ spec DiffTouch.tla (selection contract MustSelect/MustNotSelect) model-checked with TLC; spec->impl replay "
-      "(list + run + run-with-glob per behaviour); deviation switches attribute known findings", "DESIGN.md §6 C02")
+      "(list + run + run-with-matching-glob + run-with-non-matching-glob per behaviour); impl->spec trace validation "
+      "(TraceDiff.tla: flags recomputed from logged geometry and ranges); deviation switches attribute known findings",
+      "DESIGN.md §6 C02")
 
 RUNTXT = ("TLC explores Run.tla -- one action per critical section of validators::run / run_sync_validators / "
           "run_async_validators and of the check-lua / check-ai task loops -- for every outcome assignment and every "
@@ -125,7 +129,8 @@ claim("C03", "model_checking", "TLC enumerates every file of Pairing.tla (sequen
       "tree-sitter grammars are black boxes. Markdown files are homogeneous (only [//]: or only HTML comments) "
       "because of finding M1.",
       "TLA+ spec Pairing.tla model-checked with TLC; spec->impl replay of every emitted file in 39 suffixes x comment "
-      "forms with constructed ground truth", "DESIGN.md §6 C03")
+      "forms with constructed ground truth; impl->spec trace validation of recorded push/pop events (TracePairing.tla)",
+      "DESIGN.md §6 C03")
 claim("C05", "model_checking", "TLC enumerates every attribute list x layout x look-alike noise of TagSyntax.tla, checks the "
       "token-level scanner (TryStart / TryEnd / SkipLt per '<' candidate) against the round-trip contract and emits the "
       "expected attribute map (last duplicate wins); each case is rendered into a Rust block comment, a Python line "
@@ -139,7 +144,8 @@ claim("C12", "model_checking", "Pairing.tla: TLC checks err = none <=> WellNeste
       "every unbalanced file is rendered for each of the 39 suffixes, alone and among healthy files, and run in scan, "
       "list, glob and diff mode: non-zero exit, an error naming the damaged file, no report or listing.",
       "Trusted: language table as in C03.",
-      "TLA+ spec Pairing.tla model-checked with TLC; spec->impl replay of every unbalanced file (bwexec all, CLI sample)",
+      "TLA+ spec Pairing.tla model-checked with TLC; spec->impl replay of every unbalanced file (bwexec all, CLI sample); "
+      "impl->spec trace validation (TracePairing.tla, TraceSystem.tla: a parse failure ends the run at once)",
       "DESIGN.md §6 C12")
 
 claim("C10", "model_checking", "TLC enumerates every comment layout x content line of the offending key x key column x key "
@@ -163,8 +169,8 @@ claim("C15", "model_checking", "TLC checks Scope.tla -- the walk loop and the di
       "sub-directory.",
       "Trusted: glob spellings of the four forms; the `ignore` and `globset` crates are exercised for real (real tree, "
       "real .gitignore).",
-      "TLA+ spec Scope.tla model-checked with TLC; spec->impl replay of emitted scenarios on real directory trees via the CLI",
-      "DESIGN.md §6 C15")
+      "TLA+ spec Scope.tla model-checked with TLC; spec->impl replay of emitted scenarios on real directory trees via the "
+      "CLI; impl->spec trace validation of the recorded walk / diff loops (TraceScope.tla)", "DESIGN.md §6 C15")
 
 claim("C04", "exploration", "The specification's terminal states are Report (exit 0/1) and Error (exit 1): there is no crash "
       "state, and every run made for any property is also checked against that (trace specs reject other endings). "
